@@ -84,6 +84,13 @@ class Fold:
     def of_seq(self, seq):
         return self.sfn(seq)
 
+    def elim(self, v, a, b):
+        """∀-elimination: the fold over the first a items of v gives pred at any index b < a
+        (an instance of the meaning of the spec function, `tfn(v, a)  <=>  ∀ j < a. pred(item j)`)"""
+        it = vm.titem(v, b)
+        self.I.U.well_typed(it)
+        return z3.Implies(z3.And(self.tfn(v, a), b >= 0, b < a), self.pred(it, b) if self.indexed else self.pred(it))
+
 
 def fold(I, name, pred, indexed=False):
     folds = I.U.__dict__.setdefault("folds", {})
